@@ -51,10 +51,10 @@ var blockingCallees = map[string]string{
 }
 
 type blockAnalysis struct {
-	p        *Prog
-	cg       *CallGraph
-	memo     map[*ssa.Function][]blockOp
-	busy     map[*ssa.Function]bool
+	p    *Prog
+	cg   *CallGraph
+	memo map[*ssa.Function][]blockOp
+	busy map[*ssa.Function]bool
 	// accepted: canonical callee names accepted as non-blocking for the caller's purpose (with re-checked preconditions elsewhere)
 	accepted map[string]string
 	// rendezvous channel fields accepted as sends to a loop proven live
